@@ -70,6 +70,11 @@ class ScopeInfo:
                             return state
                     if args:
                         p = path(fn, args[0])
+                        if kind == 'guard':
+                            from .facts import short as _short
+                            gc = _short((cal or {}).get('cls', ''))
+                            if gc in fn.tu.counter_guard_classes():
+                                p = fn.tu.guard_counter_path(gc, p)
                         var = self._ctor_var.get(n)
                         if var is None:
                             # temporary scope object: acquired and released within the full expression
